@@ -349,6 +349,16 @@ def hist_gen(label, maxops, fnset, timeout=1800, **kw):
                 constants=dict(MaxOps=maxops, FnSet=fnset), invariants=['LawHistoryFree', 'Emit'], **kw)
 
 
+def acc_hist(maxops, timeout=900):
+    """C13 as a state machine (spec/Gen_AccHist): histories of Set / direct updates, every accessor read after every step"""
+    return dict(kind='gen', module='Gen_AccHist', label='accessor-histories%d' % maxops, props='C13', timeout=timeout, check_count=False,
+                constants=dict(MaxOps=maxops), invariants=['LawSetExact', 'LawGetLive', 'Emit'])
+
+
+def c13(tier):
+    return simple_sel('C13', ['LawLocs'])(tier) + [acc_hist(2 if tier == 'quick' else 3)]
+
+
 def c05(tier):
     fph = lambda n, t=600: dict(kind='tlc', module='FilterProtoHist', label='filterproto-hist-%dcalls' % n, constants=dict(AsCoded=False, MaxCalls=n),
                                 invariants=['NoProtectedWrite', 'TreeImmutable', 'CallIsPure'], timeout=t)
@@ -541,7 +551,7 @@ CHECKS = {
     'C08': dict(stages=c08, level='model_checking'),
     'C11': dict(stages=c11, level='model_checking'),
     'C12': dict(stages=c12, level='model_checking'),
-    'C13': dict(stages=simple_sel('C13', ['LawLocs']), level='model_checking'),
+    'C13': dict(stages=c13, level='model_checking'),
     'C14': dict(stages=c14, level='model_checking'),
     'C15': dict(stages=c15, level='model_checking'),
     'C16': dict(stages=c16, level='model_checking'),
